@@ -11,7 +11,8 @@
     names resolving through a default *sub-collection* (F-C17b, found by this
     check); /repo commit 432fa0a repaired the code, the model follows the code,
     and the theorem below no longer has that guard. *)
-From InvokeVerif Require Import Model.CollModel Spec.C17Spec Corr.C17Corr Proofs.C17_path.
+From InvokeVerif Require Import Model.CollModel Spec.C17Spec Corr.C17Corr Proofs.C17_path
+     Proofs.C10_build Proofs.C17_built.
 
 (** Flagship.  For EVERY built tree [c] and EVERY name, what the model of
     [Collection.task_with_config] returns is accepted by the executable
@@ -31,6 +32,16 @@ Theorem C17_path_deep_merge : forall c name,
   ns_canon c = true ->
   spec_ok c name (model_obs c name) = true.
 Proof. exact model_meets_spec. Qed.
+
+(** End to end: for EVERY script of [Collection(...)] / [add_task] /
+    [add_collection] / [configure] / [from_module] calls whose names are
+    dot-free and non-empty, if the script builds a tree, then every lookup on
+    that tree meets the specification (the hypothesis [ns_canon] above is an
+    invariant of [build]). *)
+Theorem C17_path_deep_merge_built : forall script c name,
+  names_plain script = true -> build script = Ok c ->
+  C17Spec.spec_ok c name (model_obs c name) = true.
+Proof. exact built_meets_spec. Qed.
 
 (** The same in Prop form, without the executable wrapper. *)
 Theorem C17_setting_from_outermost : forall c name t cfgs,
